@@ -4,7 +4,7 @@ CONSTANTS
   Inits <- InitsFl  ProbeKeys <- Probe  IterTable <- IterTab
 SPECIFICATION Spec
 INVARIANTS TypeOK ViewIsOverlay UnflushedCountsDistinctKeys IterationIsOrderedRange EmitState
-PROPERTIES FlushMakesUnderTheView DropRestoresUnder OnlyFlushWritesUnder SnapshotsFrozen SnapshotIsCopy BatchIsBuffered
+PROPERTIES FlushMakesUnderTheView DropRestoresUnder OnlyFlushWritesUnder SnapshotsFrozen SnapshotIsCopy BatchIsBuffered ReusedBatchIsBuffered
 VIEW View
 ACTION_CONSTRAINT Emit
 CHECK_DEADLOCK FALSE
